@@ -193,6 +193,12 @@ def rand_load_case(rng):
 
 
 def save_case(rng):
+    if rng.chance(1, 3):
+        pf = rng.below(12)
+        w, h = rng.range(1, 9), rng.range(1, 4)
+        s = [rng.choice([0, 255, rng.below(256), rng.below(256)]) for _ in range(w * h * PS[pf])]
+        return ("save 8 %d %d %d bmp %d %d | %s" % (pf, rng.below(2), rng.choice([0, 0, 1, 3, 8]), w, h, " ".join(map(str, s))),
+                "bmp-save", {"prec": 8})
     prec = rng.range(2, 16)
     pf = rng.below(12)
     w, h = rng.range(1, 6), rng.range(1, 4)
